@@ -23,6 +23,7 @@ import (
 	"encoding/json"
 	"fmt"
 	"io"
+	"net"
 	"os"
 	"os/exec"
 	"path/filepath"
@@ -1114,6 +1115,148 @@ func partR(al *alphabet, general []string, every int, nkeys int, deadline time.T
 }
 
 // ---------------------------------------------------------------------------
+// part L: destinations whose endpoint answers. The connection comes up asynchronously and the
+// relay loop re-runs its connection set-up on its own (start-up, reconnects); none of that may change
+// the (host, instance) identity the ring is built from. For every ordered selection of 2..3 out of four
+// nodes on one live loopback endpoint: ring == Carbon's ring once all are online, after removing each
+// index, and after adding the node left out (every one of these rebuilds the ring).
+
+func partL(keys []string) (infra string) {
+	ln, err := net.Listen("tcp", "127.0.0.1:0")
+	if err != nil {
+		return "part L: listen: " + err.Error()
+	}
+	defer ln.Close()
+	go func() {
+		for {
+			c, err := ln.Accept()
+			if err != nil {
+				return
+			}
+			go io.Copy(io.Discard, c)
+		}
+	}()
+	insts := []string{"a", "b", "", "c"}
+	node := func(i int) ref.RingNode { return ref.RingNode{Host: "127.0.0.1", Inst: insts[i], HasInst: insts[i] != ""} }
+	addr := func(i int) string {
+		if insts[i] == "" {
+			return ln.Addr().String()
+		}
+		return ln.Addr().String() + ":" + insts[i]
+	}
+	online := func(ds ...*destination.Destination) bool {
+		// barrier, not an oracle: Flush is answered by the relay loop, which also owns Online
+		limit := time.Now().Add(60 * time.Second)
+		for _, d := range ds {
+			for d.Flush(); !d.Online; d.Flush() {
+				if time.Now().After(limit) {
+					return false
+				}
+				time.Sleep(time.Millisecond)
+			}
+		}
+		return true
+	}
+	var order int64 = 1 << 40
+	compare := func(r *route.ConsistentHashing, members []int, what string) {
+		var nodes []ref.RingNode
+		for _, m := range members {
+			nodes = append(nodes, node(m))
+		}
+		ring, err := ref.NewRing(nodes)
+		if err != nil {
+			panic(err)
+		}
+		nbad := 0
+		for _, k := range keys {
+			idx, pan := func() (i int, p interface{}) {
+				defer func() { p = recover() }()
+				return route.VerifHasherIndex(r, []byte(k)), nil
+			}()
+			tal.mu.Lock()
+			tal.evals++
+			tal.mu.Unlock()
+			want := ring.Owner(k)
+			if pan != nil || idx != want {
+				nbad++
+				if nbad == 1 {
+					order++
+					got := fmt.Sprint(pan)
+					if pan == nil && idx >= 0 && idx < len(members) {
+						got = node(members[idx]).String()
+					} else if pan == nil {
+						got = fmt.Sprintf("index %d", idx)
+					}
+					coll.add(bad{order, "live", fmt.Sprintf("live %s key %s", what, k),
+						fmt.Sprintf("connected destinations, %s: key %q goes to %s, Carbon's ring over the configured (host, instance) pairs sends it to %s", what, k, got, node(members[want])),
+						map[string]interface{}{"part": "L", "case": what, "key": k}})
+				}
+			}
+		}
+		tal.mu.Lock()
+		tal.nontrivial++
+		tal.mu.Unlock()
+	}
+	for _, n := range []int{2, 3} {
+		for _, cmb := range combos(4, n) {
+			for _, perm := range perms(cmb) {
+				for variant := 0; variant <= n; variant++ { // remove index variant; variant == n: add the first node left out
+					var ds []*destination.Destination
+					for _, m := range perm {
+						ds = append(ds, realDest(addr(m)))
+					}
+					rr, err := route.NewConsistentHashing("c15l", matcher.Matcher{}, ds)
+					if err != nil {
+						panic(err)
+					}
+					r := rr.(*route.ConsistentHashing)
+					if !online(ds...) {
+						return "part L: a destination did not come online on loopback within 60 s"
+					}
+					members := append([]int(nil), perm...)
+					desc := fmt.Sprintf("destinations %v", func() (o []string) {
+						for _, m := range members {
+							o = append(o, node(m).String())
+						}
+						return
+					}())
+					if variant == 0 {
+						compare(r, members, desc+" once online")
+					}
+					if variant < n {
+						if err := r.DelDestination(variant); err != nil {
+							panic(err)
+						}
+						members = append(members[:variant:variant], members[variant+1:]...)
+						compare(r, members, fmt.Sprintf("%s after DelDestination(%d)", desc, variant))
+					} else {
+						left := -1
+						for c := 0; c < 4 && left < 0; c++ {
+							in := false
+							for _, m := range perm {
+								in = in || m == c
+							}
+							if !in {
+								left = c
+							}
+						}
+						d := realDest(addr(left))
+						r.Add(d)
+						members = append(members, left)
+						if !online(d) {
+							return "part L: a destination did not come online on loopback within 60 s"
+						}
+						compare(r, members, fmt.Sprintf("%s after Add(%s)", desc, node(left)))
+					}
+					r.Shutdown()
+				}
+			}
+		}
+	}
+	tal.sample(map[string]interface{}{"part": "L", "what": "ordered selections of 2..3 of {127.0.0.1/a, /b, /-, /c} connected to a live loopback endpoint; ring compared with Carbon's once online, after every DelDestination(i) and after Add", "keys": len(keys)})
+	return ""
+}
+
 // part E: histories of Add / DelDestination
 
 type hop struct {
@@ -1413,6 +1556,15 @@ func main() {
 	universe := []int{3, 4, 6, 7, 8} // 127.0.0.2/-, 127.0.0.2/a, 127.0.0.3/-, 127.0.0.3/a, 127.0.0.3/b
 	timed("E", func() {
 		eComplete, nh, nhAll = partE(alphB, universe, general.strs, depth, maxStart, ekeys, time.Now().Add(budget))
+	})
+	timed("L", func() {
+		lk := general.strs
+		if !rep.Thorough() && len(lk) > 3000 {
+			lk = lk[:3000]
+		}
+		if li := partL(lk); li != "" && infra == "" {
+			infra = li
+		}
 	})
 	if infra != "" {
 		rep.Infra = infra
